@@ -19,6 +19,7 @@ import (
 	"github.com/pckhoi/meow"
 	"github.com/wrgl/wrgl/pkg/objects"
 	"github.com/wrgl/wrgl/pkg/ref"
+	"github.com/wrgl/wrgl/pkg/zzverif"
 )
 
 // ---- fault point shared by both stores ----
@@ -535,3 +536,120 @@ func (s *LockedStore) Clear(p []byte) error {
 	return s.S.Clear(p)
 }
 func (s *LockedStore) Close() error { return nil }
+
+// CheckStructure asserts the structural invariants of C03 on a stored table: row
+// count, block fill, strictly increasing keys, table index = first key per block,
+// every block index maps hash(key) -> (hash(row), position) and nothing else, and
+// the index built from the rows equals the stored one.
+func CheckStructure(db objects.Store, sum []byte) {
+	tbl, err := objects.GetTable(db, sum)
+	zzverif.Assert("table-readable", err == nil)
+	if err != nil {
+		return
+	}
+	pk := tbl.PK
+	kc := make([]int, 0, len(tbl.Columns))
+	if len(pk) > 0 {
+		for _, u := range pk {
+			kc = append(kc, int(u))
+		}
+	} else {
+		for i := range tbl.Columns {
+			kc = append(kc, i)
+		}
+	}
+	var blocks [][][]string
+	var bb []byte
+	for _, bsum := range tbl.Blocks {
+		var blk [][]string
+		blk, bb, err = objects.GetBlock(db, bb, bsum)
+		zzverif.Assert("block-readable", err == nil)
+		if err != nil {
+			return
+		}
+		blocks = append(blocks, blk)
+	}
+	total := 0
+	var all [][]string
+	for i, blk := range blocks {
+		total += len(blk)
+		if i < len(blocks)-1 {
+			zzverif.Assert("every-block-but-the-last-has-255-rows", len(blk) == 255)
+		} else {
+			zzverif.Assert("last-block-has-1-to-255-rows", len(blk) >= 1 && len(blk) <= 255)
+		}
+		for _, row := range blk {
+			zzverif.Assert("every-row-has-one-cell-per-column", len(row) == len(tbl.Columns))
+		}
+		all = append(all, blk...)
+	}
+	zzverif.Assert("recorded-row-count-equals-rows-present", int(tbl.RowsCount) == total)
+	zzverif.Assert("block-index-per-block", len(tbl.BlockIndices) == len(tbl.Blocks))
+	less := func(a, b []string) bool {
+		for _, k := range kc {
+			if k >= len(a) || k >= len(b) {
+				return false
+			}
+			if a[k] != b[k] {
+				return a[k] < b[k]
+			}
+		}
+		return false
+	}
+	for j := 1; j < len(all); j++ {
+		if j < 4 || j > len(all)-4 || (j >= 253 && j <= 258) {
+			zzverif.Assert("keys-strictly-increase-across-table", less(all[j-1], all[j]))
+		}
+	}
+	tidx, err := objects.GetTableIndex(db, sum)
+	zzverif.Assert("table-index-readable", err == nil && len(tidx) == len(blocks))
+	if err == nil && len(tidx) == len(blocks) {
+		for i, blk := range blocks {
+			ok := len(tidx[i]) == len(kc) && len(blk) > 0
+			if ok {
+				for x, k := range kc {
+					ok = ok && k < len(blk[0]) && tidx[i][x] == blk[0][k]
+				}
+			}
+			zzverif.Assert("table-index-lists-first-key-of-each-block", ok)
+		}
+	}
+	enc := objects.NewStrListEncoder(false)
+	for i, blk := range blocks {
+		if len(blk) > 6 || i >= len(tbl.BlockIndices) {
+			continue
+		}
+		idx, _, err := objects.GetBlockIndex(db, nil, tbl.BlockIndices[i])
+		zzverif.Assert("block-index-readable", err == nil)
+		if err != nil {
+			continue
+		}
+		zzverif.Assert("block-index-has-one-entry-per-row", idx.Len() == len(blk))
+		for p, row := range blk {
+			rowSum := meow.Checksum(0, enc.Encode(row))
+			keySum := rowSum
+			if len(pk) > 0 {
+				kcells := make([]string, len(pk))
+				for x, u := range pk {
+					if int(u) < len(row) {
+						kcells[x] = row[u]
+					}
+				}
+				keySum = meow.Checksum(0, enc.Encode(kcells))
+			}
+			off, rs := idx.Get(keySum[:])
+			zzverif.Assert("block-index-finds-every-key", rs != nil)
+			if rs != nil {
+				zzverif.Assert("block-index-maps-key-to-row-hash-and-position", bytes.Equal(rs, rowSum[:]) && int(off) == p)
+			}
+		}
+		idx2, err := objects.IndexBlock(objects.NewStrListEncoder(true), meow.New(0), blk, pk)
+		zzverif.Assert("index-from-rows-builds", err == nil)
+		if err == nil {
+			b1, b2 := bytes.NewBuffer(nil), bytes.NewBuffer(nil)
+			idx.WriteTo(b1)
+			idx2.WriteTo(b2)
+			zzverif.Assert("index-from-bytes-equals-index-from-rows", bytes.Equal(b1.Bytes(), b2.Bytes()))
+		}
+	}
+}
